@@ -158,8 +158,8 @@ def corpus():
     sq = 3162277660168379331998893544432718533719555139325            # sqrt(10) * 10^48, truncated
     return [
         [D(0, 1, 0), 0, D(0, 1, 0), -9],                      # 1*UNIT > 1*n : InvalidOperation
-        [D(0, 1000, 0), -3, D(0, 1, 0), 0],                   # 1000*m == 1*UNIT, hashes differed
         [D(0, 1500, 0), -3, D(0, 1, 0), 0],                   # int(1500*m): TypeError
+        [D(0, 1000, 0), -3, D(0, 1, 0), 0],                   # 1000*m == 1*UNIT, hashes differed
         [D(0, 15, -1), 3, D(0, 1, 0), 0],                     # int(1.5*K) was 1000
         [D(0, 1, 0), 24, D(0, 1, 0), -24],                    # 1*Y + 1*y rounded to 28 digits
         [D(0, 1234567890123456789012345678901, 0), 0, D(0, 3, 0), 0],   # 31 digits x 3
@@ -232,7 +232,10 @@ def report(run, stream, jobs, outs, bad, diag):
     v1 = [i for i, c in bad if c == 1]
     v2 = [i for i, c in bad if c == 2]
     for b, part in enumerate(PARTS + ["operands-mutated"]):
-        hit = sorted([i for i in v1 if diag.get(i, 0) & (1 << b)], key=lambda i: size(jobs[i]))
+        # corpus: the first listed witness (corpus() is ordered by the documented pinned-tree witnesses, so the key
+        # of a known defect is stable); generated streams: the smallest failing case
+        hit = sorted([i for i in v1 if diag.get(i, 0) & (1 << b)],
+                     key=(lambda i: i) if stream == "corpus" else (lambda i: size(jobs[i])))
         if hit:
             i = hit[0]
             j = jobs[i]
